@@ -70,12 +70,17 @@ import (
 // well. Passing cyclic structures to Merge will result in an infinite recursive
 // loop.
 func (c *Config) Merge(from interface{}, options ...Option) error {
-	// from is empty in case of empty config file
+	opts := makeOptions(options)
+
+	// from is empty in case of empty config file (or a file holding null):
+	// nothing to merge, but the source of the file is recorded all the same
 	if from == nil {
+		if c.metadata == nil {
+			c.metadata = opts.meta
+		}
 		return nil
 	}
 
-	opts := makeOptions(options)
 	other, err := normalize(opts, from)
 
 	if err != nil {
